@@ -651,3 +651,29 @@ func S2max() *Scenario {
 	bud := Budget{"bid": 1, "block": 1, "tick": 34}
 	return scenFrom("S2max-30-rounds-period0", cfg, pre, bud, al, nil)
 }
+
+// S3r: the mirror of S3 for block processing: the LOWEST-id auction is the short, cancellable one
+// (fixed price, starts at 1, ends at 3, no vesting), followed by a batch auction with an extension round
+// and vesting. Gives status vectors with a cancelled / finished auction in the first position while
+// later ones are still waiting, open or vesting.
+func S3r(tier string) *Scenario {
+	cfg := world.Config{Balances: stdBalances(), Params: params("", "", 1)}
+	pre := []Op{
+		{Kind: "create_fixed", Signer: "auc2", StartPrice: "1", Sell: "5acoin", PayDenom: "bcoin", StartK: 1, EndK: 3},
+		{Kind: "create_batch", Signer: "auc1", StartPrice: "1", MinPrice: "0.5", Sell: "10acoin", PayDenom: "bcoin", StartK: 2, EndK: 4, MaxExt: 1, Rate: "0.5", Sched: sched(6, 7)},
+		{Kind: "add_allowed", AID: 0, Bidder: "bid1", Max: "5"},
+		{Kind: "add_allowed", AID: 1, Bidder: "bid1", Max: "10"},
+		{Kind: "add_allowed", AID: 1, Bidder: "bid2", Max: "4"},
+	}
+	al := &Alphabet{
+		Bidders:   []string{"bid1", "bid2"},
+		FixedAmts: []string{"3"}, BatchPrices: []string{"1", "2"}, WorthAmts: []string{"6"}, ManyAmts: []string{"3"},
+		Cancellers: []string{"auc2", "auc1"},
+		MaxK:       8, BlockStops: []int{1, 2, 3, 4, 5, 6, 7, 8},
+	}
+	bud := Budget{"bid": 2, "cancel": 1, "block": 6}
+	if tier == "thorough" {
+		bud = Budget{"bid": 3, "cancel": 1, "block": 7, "tick": 1}
+	}
+	return scenFrom("S3r-short-auction-first", cfg, pre, bud, al, nil)
+}
